@@ -30,6 +30,11 @@ or numbers could reach another is closed in the source.
         store nothing (so nothing set on fp can reach mp), and the shared
         class-level registries (defined_functions) are written only at import
         time by the decorators, never from a method
+  X-R3c clone copies every public setting the constructors initialise with a
+        constant (trap_complex, pretty)
+  X-R10 data computed in a borrowed context (<x>._mp passed to a callee) holds
+        no unevaluated lazy constant;  X-R11 the borrowed context's
+        trap_complex is saved, switched off and restored around the computation
 """
 import ast
 
@@ -571,6 +576,135 @@ def check_global_instances(run, ix):
     return n
 
 
+# --------------------------------------------------------------------------- X-R3c
+def check_clone_settings(run, ix):
+    """X-R3c.  "A cloned context computes the same values as mp at the same precision": besides the precision, the
+    public settings that change what a computation returns or raises must be those of the original.  The settings
+    are read off the constructors: public attributes that an __init__ of the MPContext hierarchy initialises with a
+    constant (trap_complex, pretty); clone must assign each of them from the original."""
+    settings = set()
+    for rel, cls in ((CTXMP, 'MPContext'), (CTXPY, 'PythonMPContext')):
+        ci = ix.module(rel).classes.get(cls)
+        init = ci.methods.get('__init__') if ci else None
+        if init is None:
+            raise AnalysisError('%s.__init__ vanished' % cls)
+        me = init.params[0]
+        for st in _walk_own(init.node):
+            if isinstance(st, ast.Assign) and len(st.targets) == 1 and isinstance(st.targets[0], ast.Attribute) and \
+                    norm(st.targets[0].value) == me and not st.targets[0].attr.startswith('_') and \
+                    isinstance(st.value, ast.Constant) and isinstance(st.value.value, bool):
+                settings.add(st.targets[0].attr)
+    if not settings:
+        raise AnalysisError('no constant-initialised public settings found in the MPContext constructors')
+    f = ix.module(CTXMP).classes['MPContext'].methods['clone']
+    me = f.params[0]
+    copied = set()
+    for st in _walk_own(f.node):
+        if isinstance(st, ast.Assign) and len(st.targets) == 1 and isinstance(st.targets[0], ast.Attribute) and \
+                isinstance(st.value, ast.Attribute) and norm(st.value.value) == me and \
+                st.value.attr == st.targets[0].attr:
+            copied.add(st.value.attr)
+    for name in sorted(settings):
+        if name in copied:
+            run.ok('X-R3c', 'clone copies the setting %s' % name)
+        else:
+            run.fail(F('X-R3c', CTXMP, f.qualname, 'setting %s' % name,
+                       'clone does not copy the setting `%s`, which the constructor initialises: the copy of a context '
+                       'with %s set behaves like a fresh context (returns complex values where the original raises '
+                       'ComplexResult, prints differently)' % (name, name), line=f.lineno))
+
+
+# --------------------------------------------------------------------------- X-R10 / X-R11
+def constant_names(ix):
+    """names under which the MP context publishes lazy constants: ctx.X = ctx.constant(...)"""
+    out = set()
+    for rel in (CTXMP, CTXPY):
+        for x in ast.walk(ix.module(rel).tree):
+            if isinstance(x, ast.Assign) and isinstance(x.value, ast.Call) and norm(x.value.func).endswith('.constant'):
+                for t in x.targets:
+                    if isinstance(t, ast.Attribute):
+                        out.add(t.attr)
+    if len(out) < 10:
+        raise AnalysisError('lazy constants of the MP context not found')
+    return out
+
+
+def check_borrowed_computation(run, ix):
+    """X-R10 / X-R11.  A function that computes in ANOTHER context (passes <x>._mp to a callee and stores what
+    comes back) is a channel between the two contexts.  X-R6 closes it for the precision.  Two more leaks:
+    X-R10 -- the data coming back must be numbers: a bare lazy constant (ctx.pi stored as it is) is evaluated
+    whenever it is next used, i.e. after the borrowed context's precision was put back, at whatever precision that
+    context then has; in the callee every constant that is stored or returned unevaluated is reported.
+    X-R11 -- the borrowed context's trap_complex is the caller's business only if the caller IS that context: the
+    borrowing function switches it off for the computation and restores it in the finally clause."""
+    res = get_resolver(ix)
+    consts = constant_names(ix)
+    n = 0
+    for f in ix.all_funcs():
+        for fe in foreign_exprs(f):
+            par = getattr(fe, '_parent', None)
+            if not (isinstance(par, ast.Call) and fe in par.args and par.args[0] is fe and
+                    isinstance(par.func, ast.Name)):
+                continue
+            kind, targets = res.lookup_name(f, par.func.id)
+            st = enclosing_stmt(par)
+            if not targets or not isinstance(st, ast.Assign):
+                continue
+            obj = norm(fe)
+            for g in targets:
+                n += 1
+                gctx = g.params[0]
+                bad = []
+                for x in _walk_own(g.node):
+                    vals = []
+                    if isinstance(x, ast.Assign):
+                        vals = [x.value] + (list(x.value.elts) if isinstance(x.value, (ast.Tuple, ast.List)) else [])
+                        if isinstance(x.value, ast.Dict):
+                            vals += list(x.value.values)
+                    elif isinstance(x, ast.Return) and x.value is not None:
+                        vals = [x.value] + (list(x.value.elts) if isinstance(x.value, (ast.Tuple, ast.List)) else [])
+                    for v in vals:
+                        if isinstance(v, ast.Attribute) and norm(v.value) == gctx and v.attr in consts:
+                            bad.append((x, v))
+                if bad:
+                    for x, v in bad:
+                        run.fail(F('X-R10', g.file, g.qualname, x, 'the lazy constant `%s` is stored unevaluated in data '
+                                   'that %s computes in %s for another context: it is evaluated when it is next used, at '
+                                   'whatever precision %s has then (fp.siegelz(1e5) changed with mp.prec)'
+                                   % (norm(v), f.qualname, obj, obj)))
+                else:
+                    run.ok('X-R10', '%s (run in %s by %s) stores and returns evaluated numbers only'
+                           % (g.qualname, obj, f.qualname))
+            # X-R11
+            ok = False
+            p = st
+            while p is not None and p is not f.node:
+                par2 = getattr(p, '_parent', None)
+                if isinstance(par2, ast.Try) and any(p is s for s in par2.body) and par2.finalbody:
+                    off = [s for s in par2.body if isinstance(s, ast.Assign) and
+                           norm(s.targets[0]) == obj + '.trap_complex' and isinstance(s.value, ast.Constant) and
+                           s.value.value is False and s.lineno < st.lineno]
+                    back = [s for s in par2.finalbody if isinstance(s, ast.Assign) and
+                            norm(s.targets[0]) == obj + '.trap_complex' and isinstance(s.value, ast.Name)]
+                    if off and back:
+                        snap = back[0].value.id
+                        holder = par2._parent
+                        pre = [s for fld in ('body', 'orelse') for s in (getattr(holder, fld, None) or [])
+                               if isinstance(s, ast.Assign) and norm(s.targets[0]) == snap and
+                               norm(s.value) == obj + '.trap_complex' and s.lineno < par2.lineno]
+                        if pre:
+                            ok = True
+                p = par2
+            if ok:
+                run.ok('X-R11', '%s: %s.trap_complex saved, switched off for the computation, restored in finally'
+                       % (f.qualname, obj))
+            else:
+                run.fail(F('X-R11', f.file, f.qualname, st, 'the computation borrowed from %s runs under that context\'s '
+                           'trap_complex: with mp.trap_complex set, fp.siegelz(1e5) and clone.zetazero(100000) raise '
+                           'ComplexResult' % obj))
+    return n
+
+
 # --------------------------------------------------------------------------- X-R6
 def foreign_exprs(f):
     """expressions <name>._mp / ._fp / ._iv occurring in f"""
@@ -776,5 +910,10 @@ def run(run, ix, tier):
     n5 = check_global_instances(run, ix)
     n6 = check_foreign_cell(run, ix)
     check_fp_settings(run, ix)
+    run.rule('X-R3c', floor=2, desc='clone copies every constant-initialised public setting')
+    run.rule('X-R10', floor=1, desc='no lazy constant in data computed in a borrowed context')
+    run.rule('X-R11', floor=1, desc='a borrowed context\'s trap_complex is neutralised and restored')
+    check_clone_settings(run, ix)
+    check_borrowed_computation(run, ix)
     run.stats.update({'mutated_context_attributes': n2, 'allocation_sites': n4,
                       'modules_scanned': n5, 'foreign_context_sites': n6})
